@@ -364,6 +364,12 @@ int register_mod_src(m_mod_t *mod, m_src_types type, const void *src_data,
                          m_src_flags flags, const void *userptr) {
     M_MOD_ASSERT(mod);
     M_MOD_CONSUME_TOKEN(mod);
+    return register_mod_src_priv(mod, type, src_data, flags, userptr);
+}
+
+/* Same as register_mod_src(), for library's own sources: not subject to the module's tokenbucket */
+int register_mod_src_priv(m_mod_t *mod, m_src_types type, const void *src_data,
+                         m_src_flags flags, const void *userptr) {
     M_SRC_ASSERT_PRIO_FLAGS();
     
     M_ASSERT(type < M_SRC_TYPE_END);
